@@ -1,4 +1,164 @@
 import Bardolph.Model.Sem
-/-! # C04 — every repeat form runs the documented number of times (theorems below) -/
+import Bardolph.Model.Loader
+import Bardolph.Proofs.Loops
+/-!
+# C04 — every repeat form runs the documented number of times with the documented values
+
+Model pieces: `Gen.assembleLoop` and the prologues `Gen.calcCounter`, `Gen.calcIncr`,
+`Gen.indexVarRange`, `Gen.cycleVarRange`, `Gen.loopPost`, `Gen.counterTest` (what
+`loop_parser.py` emits), `Gen.patchBreaks` (the parser's back-patching of `break`), the VM
+(`LOOP`, `END_LOOP`, `JUMP`, the loop frame and its hidden variables) and `Sem.execLoop`.
+
+The loop theorems are *body-parametric*: the body is any instruction list `b` about which only
+a behavioural contract is assumed (`BodyRun`, below).
+-/
 namespace Bardolph
+open Vm VmSteps Gen Loops
+
+/-! ## 5. `break` leaves exactly the innermost loop -/
+
+/-- the instructions of generated code (markers dropped; an assembled loop has none) -/
+def unG : Code → List Instr
+  | [] => []
+  | .i x :: rest => x :: unG rest
+  | .brk :: rest => unG rest
+
+theorem ins_unG (c : Code) (h : ∀ g ∈ c, g ≠ G.brk) : ins (unG c) = c := by
+  induction c with
+  | nil => rfl
+  | cons g c ih =>
+    cases g with
+    | brk => exact absurd rfl (h G.brk (by simp))
+    | i x =>
+      simp only [unG, ins, List.map_cons]
+      congr 1
+      exact ih fun g hg => h g (by simp [hg])
+
+theorem unG_ins (xs : List Instr) : unG (ins xs) = xs := by
+  induction xs with
+  | nil => rfl
+  | cons x xs ih => simp only [ins, List.map_cons, unG] at ih ⊢; rw [ih]
+
+theorem assembleLoop_mem_ne_brk (pre test bodyPre : List Instr) (body : Code) (post : List Instr) :
+    ∀ g ∈ assembleLoop pre test bodyPre body post, g ≠ G.brk := by
+  intro g hg e
+  subst e
+  obtain ⟨k, hk⟩ := List.mem_iff_getElem?.1 hg
+  exact assembleLoop_no_brk pre test bodyPre body post k hk
+
+/-- **all markers are patched.**  Whatever the body, the code of an assembled loop consists of
+instructions only — in particular a loop nested in another loop's body offers no marker to
+the outer loop's `patchBreaks`: its `break`s are bound to itself. -/
+theorem C04_loop_closed (pre test bodyPre : List Instr) (body : Code) (post : List Instr) :
+    assembleLoop pre test bodyPre body post = ins (unG (assembleLoop pre test bodyPre body post)) :=
+  (ins_unG _ (assembleLoop_mem_ne_brk pre test bodyPre body post)).symm
+
+/-- every loop form is closed the same way -/
+theorem C04_genLoop_closed (h : LoopHdr) (body : Code) : ∀ g ∈ genLoop h body, g ≠ G.brk := by
+  cases h <;> simp only [genLoop] <;> exact assembleLoop_mem_ne_brk _ _ _ _ _
+
+theorem unG_getElem? (c : Code) (h : ∀ g ∈ c, g ≠ G.brk) (k : Nat) (x : Instr)
+    (hk : c[k]? = some (G.i x)) : (unG c)[k]? = some x := by
+  have := ins_unG c h
+  rw [← this] at hk
+  simp only [ins, List.getElem?_map] at hk
+  cases h' : (unG c)[k]? with
+  | none => simp [h'] at hk
+  | some y => simp [h'] at hk; rw [hk]
+
+/-- **break_target.**  In the code of ANY loop form (`assembleLoop` with any prologue, test,
+body prefix and post-step), a `break` marker of the body — at any nesting depth of `if`/`else`
+branches, at position `j` of the body — has become `JUMP ALWAYS d` with `d` the distance to
+this loop's `END_LOOP`, which is the last instruction of the loop's code. -/
+theorem C04_break_target (pre test bodyPre : List Instr) (body : Code) (post : List Instr) (j : Nat)
+    (hb : BrkAt body j) :
+    let code := unG (assembleLoop pre test bodyPre body post)
+    let at_ := bodyIdx pre test bodyPre + j
+    let end_ := endIdx pre test bodyPre body post
+    code[at_]? = some (.jump .always ((end_ : Int) - (at_ : Int))) ∧
+    code[end_]? = some .endLoop ∧ code.length = end_ + 1 := by
+  intro code at_ end_
+  have hno := assembleLoop_mem_ne_brk pre test bodyPre body post
+  refine ⟨?_, ?_, ?_⟩
+  · apply unG_getElem? _ hno
+    have := assembleLoop_body pre test bodyPre body post j hb.lt
+    rw [this]
+    have hlt := hb.lt
+    have hg : body[j] = G.brk := by
+      have := hb.get
+      rw [List.getElem?_eq_getElem hb.lt] at this
+      simpa using this
+    rw [hg]
+  · exact unG_getElem? _ hno _ _ (assembleLoop_endLoop pre test bodyPre body post)
+  · have := congrArg List.length (C04_loop_closed pre test bodyPre body post)
+    rw [ins_length, assembleLoop_length] at this
+    exact this.symm
+
+/-- instructions of the body — e.g. the already patched jumps of an inner loop — are left alone
+by the enclosing loop's patching -/
+theorem C04_inner_jumps_kept (pre test bodyPre : List Instr) (body : Code) (post : List Instr)
+    (j : Nat) (x : Instr) (hj : body[j]? = some (G.i x)) :
+    (unG (assembleLoop pre test bodyPre body post))[bodyIdx pre test bodyPre + j]? = some x := by
+  have hlt : j < body.length := by
+    cases h : body[j]? with
+    | none => simp [h] at hj
+    | some _ => exact (List.getElem?_eq_some_iff.1 h).1
+  apply unG_getElem? _ (assembleLoop_mem_ne_brk pre test bodyPre body post)
+  rw [assembleLoop_body pre test bodyPre body post j hlt]
+  rw [List.getElem?_eq_getElem hlt] at hj
+  simp only [Option.some.injEq] at hj
+  rw [hj]
+
+/-- `EvalStack.trim`: whatever was pushed since the loop was entered is dropped -/
+theorem C04_trimEval (extra base : List Val) (h : Nat) (hb : base.length = h) :
+    trimEval (extra ++ base) h = base := by
+  subst hb
+  simp [trimEval]
+
+/-- **break_exec.**  Executing the patched `break` and the `END_LOOP` it leads to, from a state
+whose innermost frame is this loop's, with ANYTHING on the evaluation stack: the loop frame is
+popped — the frames below, an enclosing loop's among them, are untouched — and the evaluation
+stack is cut back to the `h` values it held when this loop was entered. -/
+theorem C04_break_exec (img : Image) (s : State) (pc endPc : Nat) (d : Int)
+    (vars : List (LoopVar × Val)) (h : Nat) (rest : List Frame)
+    (hs : s.status = .running) (hpc : s.pc = (pc : Int))
+    (hj : img.code[pc]? = some (.jump .always d)) (hd : (pc : Int) + d = (endPc : Int))
+    (he : img.code[endPc]? = some .endLoop) (hst : s.stack = .loop vars h :: rest) :
+    run img 2 s = { s with pc := (endPc : Int) + 1, stack := rest, eval := trimEval s.eval h } := by
+  rw [show (2 : Nat) = 1 + 1 from rfl, run_add, run_one _ _ hs, step_jump_always img s pc d hs hpc hj,
+    run_one _ _ (by exact hs), hd,
+    step_endLoop img _ endPc vars h rest (by exact hs) (by rfl) he (by exact hst)]
+
+/-- **break_innermost.**  A `break` at position `j` of the body of any loop form, through any
+nesting of `if`s: from a state at that instruction whose innermost frame is this loop's and
+whose evaluation stack holds `extra` (say the names an inner loop over lights was still to
+visit — that inner loop has ended — or nothing) on top of the `h` values `base` present when
+the loop began (among them the pending names of an enclosing loop over lights), two steps
+later the machine is just past this loop's `END_LOOP`, the loop frame is gone, `rest` — the
+enclosing loop's frame with its counter and index — is intact, and the evaluation stack is
+exactly `base`. -/
+theorem C04_break_innermost (img : Image) (P0 : Nat) (pre test bodyPre : List Instr) (body : Code)
+    (post : List Instr) (j : Nat) (hb : BrkAt body j)
+    (hc : CodeAt img P0 (unG (assembleLoop pre test bodyPre body post)))
+    (s : State) (vars : List (LoopVar × Val)) (h : Nat) (rest : List Frame) (extra base : List Val)
+    (hs : s.status = .running)
+    (hpc : s.pc = ((P0 + (bodyIdx pre test bodyPre + j) : Nat) : Int))
+    (hst : s.stack = .loop vars h :: rest) (hev : s.eval = extra ++ base) (hbase : base.length = h) :
+    run img 2 s =
+      { s with pc := ((P0 + (unG (assembleLoop pre test bodyPre body post)).length : Nat) : Int),
+               stack := rest, eval := base } := by
+  obtain ⟨h1, h2, h3⟩ := C04_break_target pre test bodyPre body post j hb
+  have hlt1 : bodyIdx pre test bodyPre + j < (unG (assembleLoop pre test bodyPre body post)).length :=
+    (List.getElem?_eq_some_iff.1 h1).1
+  have hlt2 : endIdx pre test bodyPre body post < (unG (assembleLoop pre test bodyPre body post)).length :=
+    (List.getElem?_eq_some_iff.1 h2).1
+  have hj := hc _ hlt1
+  have he := hc _ hlt2
+  rw [← List.getElem?_eq_getElem hlt1, h1] at hj
+  rw [← List.getElem?_eq_getElem hlt2, h2] at he
+  rw [C04_break_exec img s _ (P0 + endIdx pre test bodyPre body post) _ vars h rest hs hpc hj
+    (by omega) he hst, hev, C04_trimEval extra base h hbase, h3]
+  apply State.ext' <;> simp
+  omega
+
 end Bardolph
